@@ -183,7 +183,11 @@ void h_substdo2(void)
   g_ulen = ND_ULONG(); V_ASSUME(1 <= g_ulen && g_ulen <= 0xffffffffUL); g_ub = __CPROVER_allocate(g_ulen, 0);
   len = ND_ULONG(); V_ASSUME(len <= g_ulen); g_copied = 0; g_len0 = len;
   if (which == 0) r = substdio_put(&g_so, g_ub, len); else if (which == 1) { r = substdio_bput(&g_so, g_ub, len); if (r == 0) V_ASSERT(g_copied == len, "C20: supporting: substdio_bput passes every byte through the buffer exactly once"); }
-  else if (which == 2) r = substdio_flush(&g_so); else if (which == 5) { V_ASSUME(len <= g_size); g_aw_done = 0; g_aw_len = len; r = allwrite(my_write, 1, g_x, len); if (r == 0) V_ASSERT(g_aw_done == len, "C06,C20: allwrite reports success only after the whole buffer was written"); } else r = substdio_putflush(&g_so, g_ub, len);
+  else if (which == 2) r = substdio_flush(&g_so); else if (which == 5) { V_ASSUME(len <= g_size); g_aw_done = 0; g_aw_len = len; r = allwrite(my_write, 1, g_x, len);
+#ifdef AW_FUNC
+    if (r == 0) V_ASSERT(g_aw_done == len, "C06,C20: allwrite reports success only after the whole buffer was written");
+#endif
+  } else r = substdio_putflush(&g_so, g_ub, len);
   V_ASSERT(r == 0 || r == -1, "C20: supporting");
   V_ASSERT(g_so.x == g_x && 0 <= g_so.p && g_so.p <= g_so.n && g_so.n == (int)g_size, "C20: the substdio output index stays within the buffer after every operation");
   V_COVER(r == 0 && which == 1 && len > 9000); V_COVER(r == 0 && which == 0 && len > 9000 && g_so.p > 0);
